@@ -228,6 +228,10 @@ func (c *Compressor) compressValue(v float64) (uint64, error) {
 
 	leadingZeros := leardingZeros(xor)
 	trailingZeros := trailingZeros(xor)
+	// the leading-zero count is stored in 5 bits: clamp it so that it round-trips
+	if leadingZeros >= 32 {
+		leadingZeros = 31
+	}
 
 	if err := c.bw.writeBit(one); err != nil {
 		log.Errorf("Compressor.compressValue: failed to write one bit. compressor=%+v, bitWriter=%+v, err=%v", c, c.bw, err)
